@@ -3,6 +3,7 @@ from . import _stream as S
 
 PROP = "C03"
 LEVEL = "exploration"
+BLOCK = 32   # neighbouring configurations share a worker process
 RULE = ("all ten classes, grid + seeded random with emphasis on cost vectors that make HRevolve really use DISK; occupancy compared with the class budget after every action; non-trivial = peak occupancy of RAM or DISK >= 1; distinct = distinct (class, parameters, passes)")
 REQUIRED = ["C03.ram_budget", "C03.disk_budget", "C03.kind_exclusive", "C03.deps_one_step"]
 ASSUMPTIONS = ["executor semantics follow tests/test_validity.py",
